@@ -248,9 +248,9 @@ def signatures(max_params):
                     ps = []
                     for i, k in enumerate(kinds):
                         if k == 'PK':
-                            ps.append(['abcd'[i], k, i >= first_default])
+                            ps.append(['abcde'[i], k, i >= first_default])
                         else:
-                            ps.append(['abcd'[i], k, bool(ko_mask >> (i - n_pk) & 1)])
+                            ps.append(['abcde'[i], k, bool(ko_mask >> (i - n_pk) & 1)])
                     out.append(ps)
     return out
 
